@@ -2549,6 +2549,10 @@ impl Server {
     /// This implementation has been enhanced for better compatibility with
     /// redis-benchmark and other Redis clients.
     fn handle_ping(&self, parts: &[RespFrame]) -> Result<RespFrame> {
+        if parts.len() > 2 {
+            return Ok(RespFrame::error("ERR wrong number of arguments for 'ping' command"));
+        }
+        
         // If PING has an argument, return that argument
         if parts.len() > 1 {
             return Ok(parts[1].clone());
